@@ -106,6 +106,18 @@ int main (int argc, char** argv)
     out_mat ("vavt", v * A0 * transpose (v)); out_mat ("vvt", v * transpose (v));
   });
 
+  // one real Jacobi rotation in the (0,1) plane of a symmetric 3x3 matrix: similarity, orthogonality and the
+  // decrease of the off-diagonal norm by exactly 2 a01^2 (the measure that makes the sweeps converge)
+  fn_paths ("jrot3", [] {
+    double p = in ("p"), q = in ("q"), r = in ("r"), x = in ("x", 0.2, 1.5), y = in ("y"), z = in ("z");
+    Matrix<3,3,double> a, v, A0; a[0][0] = p; a[1][1] = q; a[2][2] = r; a[0][1] = a[1][0] = x; a[0][2] = a[2][0] = y; a[1][2] = a[2][1] = z;
+    A0 = a; matrix_identity (v);
+    Vector<3,double> d; d[0] = p; d[1] = q; d[2] = r;
+    JacobiRotation (0, 1, a, v, d);
+    out_mat ("a", a); out_mat ("v", v); out_vec ("d", d);
+    out_mat ("vavt", v * A0 * transpose (v)); out_mat ("vvt", v * transpose (v));
+  });
+
   // one complex Jacobi rotation of the Hermitian 2x2 matrix [[p, x+iy], [x-iy, q]], every path
   fn_paths ("jrot2c", [] {
     double p = in ("p", 0.7, 2.0), q = in ("q", 0.3, 1.0), x = in ("x", 0.2, 1.5), y = in ("y", 0.1, 1.0);
